@@ -9,15 +9,19 @@ import glob, json, os, re, shutil, subprocess, sys, tempfile, time
 V = os.path.dirname(os.path.dirname(os.path.abspath(__file__)))
 args = sys.argv[1:]
 jobs = 4
+HARMLESS = False
+if args[:1] == ["--harmless"]:
+    HARMLESS = True; args = args[1:]
 if args[:1] == ["-j"]:
     jobs = int(args[1]); args = args[2:]
-seeds = args or sorted(os.path.basename(d) for d in glob.glob(os.path.join(V, "seeded", "C*-m*")))
+SD = os.path.join(V, "seeded", "harmless") if HARMLESS else os.path.join(V, "seeded")
+seeds = args or sorted((os.path.basename(d) for d in glob.glob(os.path.join(SD, "h*" if HARMLESS else "C*-m*"))), key=lambda x: (len(x), x) if HARMLESS else (0, x))
 props = [c["property_id"] for c in json.load(open(os.path.join(V, "MANIFEST.json")))["checks"]]
 os.makedirs("/var/tmp/mut", exist_ok=True)
 
 
 def run_seed(sid):
-    patch = os.path.join(V, "seeded", sid, "patch.diff")
+    patch = os.path.join(SD, sid, "patch.diff")
     scratch = tempfile.mkdtemp(prefix="mx-%s-" % sid, dir="/var/tmp/mut")
     res = {"seed": sid, "results": {}}
     try:
@@ -58,26 +62,29 @@ with cf.ThreadPoolExecutor(max_workers=jobs) as ex:
         caught = [p for p, r in res["results"].items() if r["status"] == "VIOLATION"]
         und = [p for p, r in res["results"].items() if r["status"] == "undecided"]
         print(sid, "caught by", caught, "undecided in", und, flush=True)
-        mp = os.path.join(V, "seeded", sid, "meta.json")
+        mp = os.path.join(SD, sid, "meta.json")
         meta = json.load(open(mp))
-        meta["detected_by"] = {p: res["results"][p]["how"] for p in caught}
+        if HARMLESS:
+            meta["alarms"] = {p: res["results"][p]["how"] for p in caught}
+        else:
+            meta["detected_by"] = {p: res["results"][p]["how"] for p in caught}
+            meta["detected_by_own_property_check"] = meta["breaks_property"] in caught
         meta["undecided_in"] = und
-        meta["detected_by_own_property_check"] = meta["breaks_property"] in caught
         meta["what_i_ran"] = "tools/seedmatrix.py: scratch copy of /repo's working tree + patch.diff, `./check <P> --tier quick` for every claimed property with MELDA_REPO pointing at the copy (equivalent to `git -C /repo apply` + checks + `git -C /repo checkout -- .`)"
         json.dump(meta, open(mp, "w"), indent=1)
-mx_path = os.path.join(V, "seeded", "matrix.json")
+mx_path = os.path.join(SD, "matrix.json")
 old = json.load(open(mx_path)) if os.path.exists(mx_path) else {}
 old.update(out)
 json.dump(old, open(mx_path, "w"), indent=1)
 # markdown
 allseeds = sorted(old)
-lines = ["# Seeded changes x checks (quick tier)", "",
+lines = ["# Behaviour-preserving edits x checks (quick tier): every cell must be `.` (pass); `V` would be a FALSE ALARM, `u` = undecided (exit 2, no alarm)" if HARMLESS else "# Seeded changes x checks (quick tier)", "",
          "`V` = the check reports a VIOLATION (p = proof obligation failed, i = with a concrete failing input replayed on the real code), `u` = undecided (exit 2), `.` = pass.", "",
          "| seed | own | " + " | ".join(props) + " | summary |", "|---|---|" + "---|" * (len(props) + 1)]
 for sid in allseeds:
     R = old[sid]["results"]
     try:
-        summ = json.load(open(os.path.join(V, "seeded", sid, "meta.json")))["summary"][:90]
+        _m = json.load(open(os.path.join(SD, sid, "meta.json"))); summ = (_m.get("summary") or (_m.get("kind", "") + ": " + ", ".join(_m.get("functions", []))))[:90]
     except Exception:
         summ = ""
     cells = []
@@ -95,9 +102,12 @@ for sid in allseeds:
         else:
             cells.append(r["status"])
     own = sid.split("-")[0]
+    if HARMLESS:
+        lines.append("| %s | %s | %s | %s |" % (sid, "ALARM" if any(r["status"] == "VIOLATION" for r in R.values()) else "ok", " | ".join(cells), summ.replace("|", "/")))
+        continue
     lines.append("| %s | %s | %s | %s |" % (sid, "yes" if R.get(own, {}).get("status") == "VIOLATION" else ("u" if R.get(own, {}).get("status") == "undecided" else "NO"), " | ".join(cells), summ.replace("|", "/")))
 n_own = sum(1 for sid in allseeds if old[sid]["results"].get(sid.split("-")[0], {}).get("status") == "VIOLATION")
 n_any = sum(1 for sid in allseeds if any(r["status"] == "VIOLATION" for r in old[sid]["results"].values()))
 lines += ["", "%d seeds; caught by the check of the property they were written against: %d; caught by at least one check: %d." % (len(allseeds), n_own, n_any)]
-open(os.path.join(V, "seeded", "MATRIX.md"), "w").write("\n".join(lines) + "\n")
+open(os.path.join(SD, "MATRIX.md"), "w").write("\n".join(lines) + "\n")
 print("\n".join(lines[-1:]))
